@@ -297,6 +297,44 @@ def run_lines(exe, lines, timeout=600, env=None, cwd=None):
     return out, r.returncode, r.stderr
 
 
+def run_guarded(exe, lines, chunk_timeout=120, env=None):
+    """Run a line-protocol process over many inputs; when it dies or hangs, record CRASH/HANG for the input it was
+    processing and continue with the rest.  Returns (replies, first_incident or None)."""
+    if isinstance(exe, str):
+        exe = [exe]
+    replies = []
+    i = 0
+    incident = None
+    while i < len(lines):
+        chunk = lines[i:]
+        try:
+            r = subprocess.run(exe, input="\n".join(chunk) + "\n", stdout=subprocess.PIPE, stderr=subprocess.PIPE, text=True,
+                               timeout=chunk_timeout + len(chunk) // 20, env=env)
+            out = r.stdout.split("\n")
+            if out and out[-1] == "":
+                out.pop()
+            replies += out[:len(chunk)]
+            if len(out) >= len(chunk):
+                break
+            k = i + len(out)
+            incident = incident or (k, "exit %s: %s" % (r.returncode, r.stderr[-1500:]))
+            replies.append("CRASH exit=%s" % r.returncode)
+            i = k + 1
+        except subprocess.TimeoutExpired as e:
+            raw = e.stdout or ""
+            if isinstance(raw, bytes):
+                raw = raw.decode("latin-1")
+            out = raw.split("\n")
+            if out and out[-1] == "":
+                out.pop()
+            replies += out[:len(chunk)]
+            k = i + len(out)
+            incident = incident or (k, "timeout (hang)")
+            replies.append("HANG")
+            i = k + 1
+    return replies, incident
+
+
 class LineProc:
     """Interactive line-protocol process (one request line → one reply line)."""
 
